@@ -1513,6 +1513,8 @@ class Interp:
             c.copy_of = n  # type: ignore[attr-defined]
             return c
         if name == "set":
+            if not (isinstance(a0, Const) and isinstance(a0.v, str)):
+                raise _Raise(ExcV("builtins.TypeError", {}, [Const("Expression.set: the argument key must be a string")]))
             n.args[a0.v] = args[1]
             self.effect("nodeset", n, a0.v, args[1], site)
             return Const(None)
@@ -1645,7 +1647,10 @@ class Interp:
             if isinstance(s.op, ast.Add) and (_strlike(cur) or _strlike(rhs)):
                 v = mkstr([self.to_strpart(cur), self.to_strpart(rhs)])
             elif isinstance(s.op, ast.Add) and isinstance(cur, Const) and isinstance(rhs, Const):
-                v = Const(cur.v + rhs.v)
+                try:
+                    v = Const(cur.v + rhs.v)
+                except TypeError as te:  # None += 1 raises in the analysed program too
+                    raise _Raise(ExcV("builtins.TypeError", {}, [Const(str(te))])) from None
             else:
                 v = Sym(f"({tagof(cur)} {type(s.op).__name__}= {tagof(rhs)})", origin=("binop", type(s.op).__name__, cur, rhs))
             self.assign(s.target, v, env, s)
